@@ -28,6 +28,8 @@ class Cloning:
         data_cpy[k] = gfapy.OrientedLine(v.name, v.orient)
       elif self._field_datatype(k) == "J":
         data_cpy[k] = json.loads(json.dumps(v))
+      elif isinstance(v, gfapy.LastPos):
+        data_cpy[k] = gfapy.LastPos(v.value, valid = True)
       elif isinstance(v, list) or isinstance(v, str):
         data_cpy[k] = deepcopy(v)
       else:
